@@ -25,8 +25,13 @@ RULE = (
     "decades; planes through 3 / 2 / 1 / 0 mesh vertices with a non-unit normal, shifted by 0, 0.3, 3, 30 TOL. Margin "
     "rule: a radius closer than 1e-6 (relative) to a vertex distance is moved to a clear value by construction; a query "
     "with a vertex between 0.9 and 1.1 TOL from the boundary is not judged (counted). The expected set is a brute-force "
-    "numpy selection over mesh.vertices. Round-shape finder: expected sets come from the case's own axis / radius data "
-    "(end plane, radial distance = R for the rim, < R for the core). Re-orientation: a cube, tapered, jittered (<= 0.15 "
+    "numpy selection over mesh.vertices' current positions: after the first queries, 0-3 rounds follow in which 1-3 mesh "
+    "vertices are moved on their own (move_to / translate, by 1e-3 ... 3 S) and the same finder object is queried again, "
+    "also exactly at the new and at the former position of a moved vertex. Round-shape finder: expected sets come from the case's own axis / radius data "
+    "(end plane, radial distance = R for the rim, < R for the core). Merged cell: two cylinders end to end (aligned, "
+    "twisted by 45 degrees or by a general angle) joined with mesh.merge_patches in both insertion orders and both "
+    "master choices, so the interface holds duplicated vertices; expected = every mesh vertex within TOL of an end-face "
+    "corner of the shape's own blocks (positions read from the assembled blocks). Re-orientation: a cube, tapered, jittered (<= 0.15 "
     "edge), mapped by rotation x anisotropic scaling x shear, viewed from a point near the normal of a drawn face with "
     "the ceiling near the normal of a drawn lateral face; every one of the 48 numberings is re-oriented and compared "
     "with the numbering the harness derives from R-HEX. Non-trivial: the query selects a proper non-empty subset; a "
@@ -39,6 +44,8 @@ ASSUMPTIONS = [
     "end-face vertices are those within 1e-6 S of the end plane and within R (1 + 1e-6) of its centre; rim: |r - R| <= "
     "1e-6 R, core: r <= 0.999 R (the sketches put core points at <= 0.89 R); shapes sit in separate slots so no foreign "
     "vertex comes near an end face",
+    "merged cell: the end-face points are the positions of corners 0-3 / 4-7 of the shape's own blocks as assembled; all "
+    "mesh vertices coincident with them (duplicates of a merge_patches pair included) count as vertices of that face",
     "general position for re-orientation: for each of the six view directions (to the observer, to the ceiling "
     "orthogonalised against it, their cross product, and the opposites) the worst-aligned triangle of the chosen face "
     "(either diagonal) beats the best-aligned triangle of any other face by 0.1, and the six chosen faces are distinct "
@@ -193,7 +200,8 @@ _OFFSETS = [0.0, 0.3 * TOL, 3 * TOL, 30 * TOL]
 @st.composite
 def sphere_query(draw):
     q = {"anchor": draw(st.integers(0, 200)), "dir": draw(_vec)}
-    q["where"] = draw(st.sampled_from(["at-vertex", "next-to-vertex", "near-vertex", "anywhere"]))
+    # "moved-new" / "moved-old": at the new / former position of a vertex moved in this round (else: at a vertex)
+    q["where"] = draw(st.sampled_from(["at-vertex", "next-to-vertex", "near-vertex", "anywhere", "moved-new", "moved-old"]))
     if q["where"] == "next-to-vertex":
         q["offset"] = draw(st.sampled_from(_OFFSETS))
     elif q["where"] == "near-vertex":
@@ -217,25 +225,64 @@ def clear_radius(dist: np.ndarray, r: float, S: float) -> float:
     return -1.0
 
 
+@st.composite
+def move_spec(draw):
+    return {"vertex": draw(st.integers(0, 200)), "dir": draw(_vec), "dist_rel": draw(st.sampled_from([1e-3, 0.05, 0.5, 3.0])),
+            "how": draw(st.sampled_from(["move_to", "translate"]))}
+
+
+def apply_moves(mesh, moves, S):
+    """moves mesh vertices on their own (as an optimiser or the user does); -> [(index, old position, new position)]"""
+    out = []
+    vertices = mesh.vertices
+    for m in moves:
+        i = m["vertex"] % len(vertices)
+        v = vertices[i]
+        old = np.array(v.position, dtype=float)
+        step = _normalised(m["dir"], [0, 1, 0]) * m["dist_rel"] * S
+        if m["how"] == "move_to":
+            v.move_to(old + step)
+        else:
+            v.translate(step)
+        out.append((i, old, np.array(v.position, dtype=float)))
+    return out
+
+
+def run_rounds(case, ctx: Ctx, mesh, S, one_query) -> None:
+    """round 0: the case's queries; then per round: move 1-3 vertices, query again - always with the same finder and
+    always judged against the current positions"""
+    nt = False
+    for k, rnd in enumerate([{"moves": [], "queries": case["queries"]}, *case.get("rounds", [])]):
+        moved = apply_moves(mesh, rnd["moves"], S)
+        pos = positions(mesh)
+        for qi, q in enumerate(rnd["queries"]):
+            nt = one_query(pos, q, {"round": k, "query": qi, "moved": [m[0] for m in moved]}, moved) or nt
+    ctx.nt(nt)
+    ctx.label("rounds=%d" % len(case.get("rounds", [])))
+
+
 def check_sphere(case, ctx: Ctx) -> None:
     spec = case["mesh"]
     S = spec["S"]
     mesh, _items, _ends = build_mesh(spec)
-    pos = positions(mesh)
     finder = GeometricFinder(mesh)
-    nt = False
-    for qi, q in enumerate(case["queries"]):
+
+    def one_query(pos, q, where, moved) -> bool:
         anchor = pos[q["anchor"] % len(pos)]
+        if q["where"] in ("moved-new", "moved-old") and moved:
+            _i, old, new = moved[q["anchor"] % len(moved)]
+            anchor = new if q["where"] == "moved-new" else old
+            ctx.label("sphere:" + q["where"])
         u = _normalised(q["dir"], [1, 0, 0])
         centre = anchor + u * (q.get("offset", 0.0) + q.get("offset_rel", 0.0) * S)
         dist = np.linalg.norm(pos - centre, axis=1)
-        facts = {"query": qi, "where": q["where"], "offset": q.get("offset"), "default_radius": q["radius_rel"] is None,
+        facts = {**where, "where": q["where"], "offset": q.get("offset"), "default_radius": q["radius_rel"] is None,
                  "shapes": [s["kind"] for s in spec["shapes"]]}
         if q["radius_rel"] is None:
             r_arg, r = None, TOL
             if np.any(np.abs(dist - TOL) < 0.1 * TOL):
                 ctx.label("sphere:boundary-skipped")
-                continue
+                return False
         else:
             r0 = q["radius_rel"] * S
             if q.get("radius_at") and dist[q["radius_at"][0] % len(pos)] > 1e-3 * S:
@@ -244,7 +291,7 @@ def check_sphere(case, ctx: Ctx) -> None:
             r = clear_radius(dist, r0, S)
             if r < 0:
                 ctx.label("sphere:boundary-skipped")
-                continue
+                return False
             r_arg = r
         facts["radius"] = r
         try:
@@ -254,15 +301,18 @@ def check_sphere(case, ctx: Ctx) -> None:
         got = returned_indexes(found, mesh, facts)
         want = [int(i) for i in np.nonzero(dist < r)[0]]
         compare_sets("sphere", got, want, pos, facts, f"sphere at {centre.tolist()} radius {r}")
-        proper = 0 < len(want) < len(pos)
-        nt = nt or proper
         ctx.label("sphere:default-radius" if r_arg is None else "sphere:radius",
                   "sphere:empty" if not want else ("sphere:all" if len(want) == len(pos) else
                                                    ("sphere:one" if len(want) == 1 else "sphere:several")))
         if q["where"] == "next-to-vertex":
             ctx.label("sphere:offset=%g" % q["offset"])
-    ctx.nt(nt)
-    ctx.label("vertices<=8" if len(pos) <= 8 else ("vertices<=40" if len(pos) <= 40 else "vertices>40"))
+        if moved and any(i in want for i, _o, _n in moved):
+            ctx.label("sphere:selects-moved-vertex")
+        return 0 < len(want) < len(pos)
+
+    run_rounds(case, ctx, mesh, S, one_query)
+    n = len(mesh.vertices)
+    ctx.label("vertices<=8" if n <= 8 else ("vertices<=40" if n <= 40 else "vertices>40"))
 
 
 # --------------------------------------------------------------------------------------------------
@@ -278,6 +328,8 @@ def plane_query(draw):
         "shift": draw(st.sampled_from(_OFFSETS)),
         "normal_length": draw(st.sampled_from([1.0, 1e-3, 0.37, 25.0])),
         "flip": draw(st.booleans()),
+        # the first anchor is the new / former position of a vertex moved in this round (when there is one)
+        "moved": draw(st.sampled_from([None, None, "new", "old"])),
     }
 
 
@@ -285,13 +337,17 @@ def check_plane(case, ctx: Ctx) -> None:
     spec = case["mesh"]
     S = spec["S"]
     mesh, _items, _ends = build_mesh(spec)
-    pos = positions(mesh)
     finder = GeometricFinder(mesh)
-    nt = False
-    for qi, q in enumerate(case["queries"]):
+
+    def one_query(pos, q, where, moved) -> bool:
         a, b, c = (pos[i % len(pos)] for i in q["anchors"])
-        u = _normalised(q["dir"], [0, 0, 1])
         through = q["through"]
+        if q.get("moved") and moved:
+            _i, old, new = moved[q["anchors"][0] % len(moved)]
+            a = new if q["moved"] == "new" else old
+            through = through if q["moved"] == "new" else min(through, 1)
+            ctx.label("plane:moved-" + q["moved"])
+        u = _normalised(q["dir"], [0, 0, 1])
         normal = None
         if through == 3:
             normal = np.cross(b - a, c - a)
@@ -308,11 +364,11 @@ def check_plane(case, ctx: Ctx) -> None:
         point = point + n_hat * q["shift"]
         normal = n_hat * q["normal_length"] * (-1 if q["flip"] else 1)
         signed = (pos - point) @ n_hat
-        facts = {"query": qi, "through": through, "shift": q["shift"], "normal_length": q["normal_length"],
+        facts = {**where, "through": through, "shift": q["shift"], "normal_length": q["normal_length"],
                  "shapes": [s["kind"] for s in spec["shapes"]]}
         if np.any((np.abs(signed) > 0.9 * TOL) & (np.abs(signed) < 1.1 * TOL)):
             ctx.label("plane:boundary-skipped")
-            continue
+            return False
         try:
             found = finder.find_on_plane(point, normal)
         except Exception as ex:  # noqa: BLE001
@@ -320,11 +376,14 @@ def check_plane(case, ctx: Ctx) -> None:
         got = returned_indexes(found, mesh, facts)
         want = [int(i) for i in np.nonzero(np.abs(signed) < TOL)[0]]
         compare_sets("plane", got, want, pos, facts, f"plane through {point.tolist()} normal {normal.tolist()}")
-        nt = nt or 0 < len(want) < len(pos)
         ctx.label("plane:through=%d" % through, "plane:shift=%g" % q["shift"],
                   "plane:empty" if not want else ("plane:1-2" if len(want) <= 2 else ("plane:3-4" if len(want) <= 4 else "plane:>4")),
                   "plane:one-sided" if (np.all(signed > -TOL) or np.all(signed < TOL)) else "plane:cutting")
-    ctx.nt(nt)
+        if moved and any(i in want for i, _o, _n in moved):
+            ctx.label("plane:selects-moved-vertex")
+        return 0 < len(want) < len(pos)
+
+    run_rounds(case, ctx, mesh, S, one_query)
 
 
 # --------------------------------------------------------------------------------------------------
@@ -387,6 +446,101 @@ def items_by_spec(spec, items):
             out.append(items[i])
             i += 1
     return out
+
+
+# two cylinders end to end, joined by mesh.merge_patches: the interface holds duplicated vertices
+
+
+@st.composite
+def merged_case(draw):
+    return {
+        "S": draw(_size),
+        "frame": draw(_frame),
+        "radius": draw(st.floats(0.3, 1.0)),
+        "lengths": [draw(st.floats(0.3, 2.0)), draw(st.floats(0.3, 2.0))],
+        # aligned, a multiple of the 45 degree block pattern, or in general position
+        "twist": draw(st.one_of(st.sampled_from([0.0, math.pi / 4, math.pi / 2, math.pi, 0.3]), st.floats(0.05, 3.0))),
+        "order": draw(st.sampled_from(["upstream-first", "downstream-first"])),
+        "master": draw(st.sampled_from(["upstream", "downstream"])),
+        "queries": draw(st.lists(st.fixed_dictionaries({"shape": st.sampled_from(["upstream", "downstream"]), "end": st.booleans(),
+                                                        "which": st.sampled_from(["core", "shell"])}), min_size=1, max_size=4)),
+    }
+
+
+def check_round_merged(case, ctx: Ctx) -> None:
+    S = case["S"]
+    rot = rotation_of(case["frame"])
+    e1, e2, e3 = rot[:, 0], rot[:, 1], rot[:, 2]
+    org = S * np.array(case["frame"]["jitter"])
+    R = S * case["radius"]
+    mid = org + e3 * S * case["lengths"][0]
+    end = mid + e3 * S * case["lengths"][1]
+    tw = case["twist"]
+    shapes = {
+        "upstream": cb.Cylinder(org, mid, org + e1 * R),
+        "downstream": cb.Cylinder(mid, end, mid + R * (math.cos(tw) * e1 + math.sin(tw) * e2)),
+    }
+    shapes["upstream"].set_end_patch("interface_up")
+    shapes["downstream"].set_start_patch("interface_down")
+    mesh = cb.Mesh()
+    for name in (("upstream", "downstream") if case["order"] == "upstream-first" else ("downstream", "upstream")):
+        mesh.add(shapes[name])
+    pair = ("interface_up", "interface_down") if case["master"] == "upstream" else ("interface_down", "interface_up")
+    mesh.merge_patches(*pair)
+    mesh.assemble()
+    pos = positions(mesh)
+    ids = {id(v): i for i, v in enumerate(mesh.vertices)}
+    faces = {"upstream": [(org, R), (mid, R)], "downstream": [(mid, R), (end, R)]}
+    duplicated = len(pos) - len(cluster_count(pos))
+    for qi, q in enumerate(case["queries"]):
+        shape = shapes[q["shape"]]
+        centre, _R = faces[q["shape"]][1 if q["end"] else 0]
+        facts = {"query": qi, "shape": q["shape"], "end": q["end"], "which": q["which"], "order": case["order"],
+                 "master": case["master"], "twist": tw, "interface": (q["shape"] == "upstream") == q["end"]}
+        # end-face points = where the shape's own blocks have their bottom / top corners (read from the assembled mesh)
+        own = set()
+        for op in shape.operations:
+            block = mesh.blocks[mesh.operations.index(op)]
+            own.update(ids[id(block.vertices[c])] for c in ((4, 5, 6, 7) if q["end"] else (0, 1, 2, 3)))
+        own = sorted(own)
+        radial = np.linalg.norm(pos[own] - centre, axis=1)
+        axial = np.abs((pos[own] - centre) @ e3)
+        if axial.max() > 1e-6 * S or radial.max() > R * (1 + 1e-6):
+            raise Violation("round-own-vertices-off-face", "corners of the shape's own blocks are not on its end face", **facts)
+        on_rim = np.abs(radial - R) <= 1e-6 * R
+        if np.any(~on_rim & (radial > 0.999 * R)):
+            ctx.label("round:ambiguous-skipped")
+            continue
+        points = pos[[i for i, rim in zip(own, on_rim) if rim == (q["which"] == "shell")]]
+        gap = np.linalg.norm(pos[:, None, :] - points[None, :, :], axis=2).min(axis=1)
+        if np.any((gap > 0.1 * TOL) & (gap < 10 * TOL)):
+            ctx.label("round:boundary-skipped")
+            continue
+        want = [int(i) for i in np.nonzero(gap < TOL)[0]]
+        finder = RoundSolidFinder(mesh, shape)
+        try:
+            found = finder.find_shell(q["end"]) if q["which"] == "shell" else finder.find_core(q["end"])
+        except Exception as ex:  # noqa: BLE001
+            raise Violation("round-raised", f"find_{q['which']} raised {type(ex).__name__}: {ex}", **facts) from None
+        got = returned_indexes(found, mesh, facts)
+        compare_sets("round", got, want, pos, facts,
+                     f"{q['which']} of the {'end' if q['end'] else 'start'} face of the {q['shape']} cylinder")
+        extra = len(want) - len(points)
+        ctx.label("merged:interface" if facts["interface"] else "merged:outer-face", "merged:" + q["which"],
+                  "merged:coincident-foreign=0" if extra == 0 else ("merged:coincident-foreign=1" if extra == 1 else
+                                                                    "merged:coincident-foreign>1"))
+    ctx.nt(duplicated > 0)
+    ctx.label(case["order"], "master=" + case["master"], "duplicated=%d" % duplicated,
+              "twist=aligned" if tw in (0.0, math.pi / 2, math.pi) else ("twist=45" if tw == math.pi / 4 else "twist=general"))
+
+
+def cluster_count(pos):
+    """representatives of the distinct positions (TOL)"""
+    reps = []
+    for p in pos:
+        if not any(np.linalg.norm(p - r) < TOL for r in reps):
+            reps.append(p)
+    return reps
 
 
 _round_query = st.fixed_dictionaries({"shape": st.integers(0, 5), "end": st.booleans(), "which": st.sampled_from(["core", "shell"])})
@@ -600,8 +754,13 @@ def check_reorient(case, ctx: Ctx) -> None:
 _ALL = ("box", "box", "box", *ROUND_KINDS)
 
 
-def _with_queries(mesh_strategy, query_strategy):
-    return st.fixed_dictionaries({"mesh": mesh_strategy, "queries": st.lists(query_strategy, min_size=1, max_size=4)})
+def _with_queries(mesh_strategy, query_strategy, rounds=True):
+    spec = {"mesh": mesh_strategy, "queries": st.lists(query_strategy, min_size=1, max_size=4)}
+    if rounds:
+        one = st.fixed_dictionaries({"moves": st.lists(move_spec(), min_size=1, max_size=3),
+                                     "queries": st.lists(query_strategy, min_size=1, max_size=3)})
+        spec["rounds"] = st.integers(0, 3).flatmap(lambda k: st.lists(one, min_size=k, max_size=k))
+    return st.fixed_dictionaries(spec)
 
 
 CELLS = [
@@ -613,9 +772,13 @@ CELLS = [
          "find_on_plane on rows of boxes: planes through 0-3 vertices, shifted across TOL, non-unit normals"),
     Cell("C18/plane/mixed", _with_queries(mesh_spec(_ALL, max_shapes=3), plane_query()), check_plane, 120, 2400,
          "find_on_plane on meshes with round shapes (end faces hold 17 coplanar vertices)"),
-    Cell("C18/round", _with_queries(mesh_spec(_ALL, first_kinds=ROUND_KINDS, max_shapes=3), _round_query), check_round, 160, 3200,
+    Cell("C18/round", _with_queries(mesh_spec(_ALL, first_kinds=ROUND_KINDS, max_shapes=3), _round_query, rounds=False), check_round, 160, 3200,
          "RoundSolidFinder.find_core / find_shell of both end faces of Cylinder, SemiCylinder, Frustum, Elbow, chained "
          "cylinders == vertices on the end plane inside / on the rim circle"),
+    Cell("C18/round-merged", merged_case(), check_round_merged, 60, 1200,
+         "two cylinders end to end (aligned / twisted) joined by merge_patches, both insertion orders and master choices: "
+         "find_core / find_shell == every mesh vertex within TOL of the end-face points of the shape's own blocks "
+         "(duplicated interface vertices included)"),
     Cell("C18/reorient", block_case(), check_reorient, 160, 3200,
          "distorted convex hexahedron x 48 numberings: same points, right-handed, front faces the observer, top faces the "
          "ceiling, result identical for all numberings"),
